@@ -65,3 +65,6 @@ let () =
                    | _ -> ["oom"]) in
         [hex_of_bstr text; cev] @ jev
     | _ -> failwith "minijs: bad request")
+
+let () =
+  register "js_escape_html" (fun a -> match a with [s] -> [hex_of_bstr (js_escape_html (bstr_of_hex s))] | _ -> failwith "js_escape_html: arity")
